@@ -77,8 +77,11 @@ def sample_values(e: dict, rnd: random.Random, n_random: int) -> list:
     if ty in ("ByteH", "ByteL"):
         return [-128, -1, 0, 1, 2, 127] + [rnd.randint(-128, 127) for _ in range(n_random)]
     if ty == "Timestamp":
-        return [{"dt": [2000, 1, 1, 0, 0, 0]}, {"dt": [2024, 2, 29, 23, 59, 59]}, {"dt": [2099, 12, 31, 12, 0, 1]}] + \
-            [{"dt": [2000 + rnd.randrange(100), rnd.randint(1, 12), rnd.randint(1, 28), rnd.randrange(24), rnd.randrange(60),
+        # the year travels in one byte: 2000..2255 is the encodable domain
+        return [{"dt": [2000, 1, 1, 0, 0, 0]}, {"dt": [2024, 2, 29, 23, 59, 59]}, {"dt": [2099, 12, 31, 12, 0, 1]},
+                {"dt": [2100, 1, 1, 0, 0, 0]}, {"dt": [2127, 6, 15, 7, 8, 9]}, {"dt": [2128, 2, 29, 1, 2, 3]},
+                {"dt": [2200, 3, 31, 23, 0, 59]}, {"dt": [2255, 12, 31, 23, 59, 59]}] + \
+            [{"dt": [2000 + rnd.randrange(256), rnd.randint(1, 12), rnd.randint(1, 28), rnd.randrange(24), rnd.randrange(60),
                      rnd.randrange(60)]} for _ in range(n_random)]
     if ty == "EcoModeV1":
         out = ["0d1e0e28ffc4ff1a", "0000173bff9cff7f", "0000173b0064ff7f", "3000300000640000"]
